@@ -13,7 +13,7 @@ use std::collections::{BTreeMap, HashMap, HashSet};
 use std::time::{Duration, Instant};
 
 pub fn check(tier: Tier, seed: u64, replay: (Option<&str>, Option<&str>)) -> Vec<PartReport> {
-    crate::run_parts!(tier, seed, replay, [WirePart])
+    crate::run_parts!(tier, seed, replay, [WirePart, TickPart])
 }
 
 #[derive(Clone, Debug, Serialize, Deserialize)]
@@ -51,6 +51,10 @@ pub struct Case {
     pub pool_size: u8,
     pub workers: u8,
     pub steps: Vec<Step>,
+    /// the history straddles the pooler's 15-second statistics roll-over: a sample is taken before it, the second half of the
+    /// steps runs after it
+    #[serde(default)]
+    pub across_tick: bool,
 }
 
 pub struct WirePart;
@@ -67,7 +71,7 @@ impl Part for WirePart {
         true
     }
     fn rule(&self) -> String {
-        "histories of 5..22 steps on a two-shard pool (pool_size 2..3): connect, failed login, autocommit statement, BEGIN..COMMIT/ROLLBACK blocks, extended batch, failing statement, transaction left open / closed later, Terminate, abrupt drop (idle or inside a transaction), malformed message, out-of-range shard_id comment, backend refusing new sessions while a new server connection is needed; a sample is taken after every few steps and at the end. Oracle at each quiescent sample (polled up to 2 s): SHOW CLIENTS lists exactly the harness' connected clients once each with idle/active state matching open transactions, SHOW POOLS cl_idle+cl_active+cl_waiting equals their number with no client waiting, SHOW SERVERS has one row per live mock-backend session and as many active ones as open transactions and none in login, SHOW STATS total_query_count / total_xact_count equal the Query/Sync requests the backends executed / those that left the backend idle, and no total decreases between samples; after everyone has left: zero clients, no active server. Non-trivial = at least one abrupt or erroneous exit and one refused checkout or failed login in the history".into()
+        "histories of 5..22 steps on a two-shard pool (pool_size 2..3): connect, failed login, autocommit statement, BEGIN..COMMIT/ROLLBACK blocks, extended batch, failing statement, transaction left open / closed later, Terminate, abrupt drop (idle or inside a transaction), malformed message, out-of-range shard_id comment, backend refusing new sessions while a new server connection is needed; a sample is taken after every few steps and at the end (part 'tick': the same histories straddling the pooler's 15-second statistics roll-over, errors and traffic counted before it, a sample on either side). Oracle at each quiescent sample (polled up to 2 s): SHOW CLIENTS lists exactly the harness' connected clients once each with idle/active state matching open transactions, SHOW POOLS cl_idle+cl_active+cl_waiting equals their number with no client waiting, SHOW SERVERS has one row per live mock-backend session and as many active ones as open transactions and none in login, SHOW STATS total_query_count / total_xact_count equal the Query/Sync requests the backends executed / those that left the backend idle, and no total decreases between samples; after everyone has left: zero clients, no active server. Non-trivial = at least one abrupt or erroneous exit and one refused checkout or failed login in the history".into()
     }
     fn cases(&self, tier: Tier) -> u64 {
         tier.pick(1_000, 16_000)
@@ -92,16 +96,63 @@ impl Part for WirePart {
             1 => c.clone().prop_map(Step::BackendRefuse),
             3 => Just(Step::Sample),
         ];
-        (2u8..=3, prop_oneof![Just(1u8), Just(2u8), Just(4u8)], prop::collection::vec(step, 5..23))
-            .prop_map(|(pool_size, workers, mut steps)| {
+        (2u8..=3, prop_oneof![Just(1u8), Just(2u8), Just(4u8)], prop::collection::vec(step, 5..23), Just(false))
+            .prop_map(|(pool_size, workers, mut steps, across_tick)| {
                 steps.insert(0, Step::Connect);
                 steps.insert(1, Step::Connect);
-                Case { pool_size, workers, steps }
+                Case { pool_size, workers, steps, across_tick }
             })
             .boxed()
     }
     fn run(&self, c: &Case, ctx: &mut WorkerCtx) -> Outcome {
         wire::run_async(run_case(c, ctx))
+    }
+}
+
+/// The same histories, but each one straddles the 15-second statistics roll-over (one case per worker in the quick tier).
+pub struct TickPart;
+
+impl Part for TickPart {
+    type Case = Case;
+    fn prop(&self) -> &'static str {
+        "C18"
+    }
+    fn name(&self) -> &'static str {
+        "tick"
+    }
+    fn wire(&self) -> bool {
+        true
+    }
+    fn rule(&self) -> String {
+        "histories as in part 'wire' that run for 16 s: errors and traffic are counted and sampled before the pooler's 15-second statistics roll-over, the second half of the steps and the final samples come after it; oracle as in part 'wire', in particular no total (queries, transactions, bytes, errors, times) decreases across the roll-over. Non-trivial = always (every case crosses the roll-over with non-zero totals)".into()
+    }
+    fn cases(&self, tier: Tier) -> u64 {
+        tier.pick(16, 160)
+    }
+    fn nontrivial_floor(&self) -> f64 {
+        0.0
+    }
+    fn max_shrink(&self) -> u32 {
+        // every re-execution takes 16 s
+        6
+    }
+    fn strategy(&self, tier: Tier) -> BoxedStrategy<Case> {
+        WirePart
+            .strategy(tier)
+            .prop_map(|mut c| {
+                c.across_tick = true;
+                // make sure errors and traffic were counted before the roll-over
+                c.steps.insert(2, Step::ErrAuto(0));
+                c.steps.insert(3, Step::BadShard(1));
+                c.steps.insert(4, Step::Auto(0));
+                c
+            })
+            .boxed()
+    }
+    fn run(&self, c: &Case, ctx: &mut WorkerCtx) -> Outcome {
+        let mut o = wire::run_async(run_case(c, ctx));
+        o.nontrivial = o.labels.iter().any(|l| l == "across_stats_rollover");
+        o
     }
 }
 
@@ -197,8 +248,20 @@ async fn run_case(c: &Case, ctx: &mut WorkerCtx) -> Outcome {
     let mut steps: Vec<Step> = c.steps.clone();
     steps.push(Step::Sample);
     let n_steps = steps.len();
+    let mut tick_done = false;
     for (si, st) in steps.iter().enumerate() {
         o.sub_evaluations += 1;
+        if c.across_tick && !tick_done && si >= n_steps / 2 && since_sample == 0 {
+            // the collector rolls the per-period counters over 15 s after start-up (STAT_PERIOD); the sample just taken is the
+            // "before" picture, everything from here on happens after the roll-over
+            let up = t0.elapsed();
+            let want = Duration::from_millis(15_700);
+            if up < want {
+                tokio::time::sleep(want - up).await;
+            }
+            tick_done = true;
+            o.label("across_stats_rollover");
+        }
         let live: Vec<usize> = (0..cls.len()).filter(|i| cls[*i].cli.is_open()).collect();
         let pick = |k: u8| -> Option<usize> { if live.is_empty() { None } else { Some(live[k as usize % live.len()]) } };
         let mut force_sample = false;
@@ -348,6 +411,9 @@ async fn run_case(c: &Case, ctx: &mut WorkerCtx) -> Outcome {
             Step::Sample => force_sample = true,
         }
         since_sample += 1;
+        if c.across_tick && !tick_done && si + 1 >= n_steps / 2 {
+            force_sample = true;
+        }
         if !(force_sample || since_sample >= 4 || si + 1 == n_steps) {
             continue;
         }
@@ -419,7 +485,7 @@ async fn run_case(c: &Case, ctx: &mut WorkerCtx) -> Outcome {
                 // monotone totals
                 let mut totals: BTreeMap<String, i64> = BTreeMap::new();
                 for r in &stats {
-                    for k in ["total_xact_count", "total_query_count", "total_received", "total_sent", "total_errors", "total_wait_time"] {
+                    for k in ["total_xact_count", "total_query_count", "total_received", "total_sent", "total_errors", "total_wait_time", "total_xact_time", "total_query_time"] {
                         *totals.entry(format!("{}:{}", r.get("instance").cloned().unwrap_or_default(), k)).or_default() += num(r, k);
                     }
                 }
